@@ -235,3 +235,786 @@ Proof.
       break_in H. injection H as <-. split; [reflexivity|]. split; [reflexivity|]. split; [reflexivity|]. right.
       split; [exact Ex|]. split; [exists i, b0; auto|]. split; [now apply negb_false_iff|]. right; right. cbn [b_state b_on]. auto.
 Qed.
+
+(* ---------------------------------------------------------------- auxiliary invariant: stacks and bodies agree *)
+
+Record AInv (sx : static) (st : state) : Prop := {
+  a_len : length (threads st) = length (s_threads sx);
+  a_raw : forall t, (t < length (s_threads sx))%nat -> length (t_raw (nth t (threads st) dummy_thread)) = length (s_chans sx);
+  a_nodup : forall t, NoDup (bs st t);
+  (* every stack entry refers to an existing body that is on that thread *)
+  a_on : forall t e, In e (bs st t) ->
+         exists tk b, body_state_of st (ti_loom (tinfo sx t)) (ti_pid (tinfo sx t)) e = Some (tk, b) /\ b_on b = Some t
+}.
+
+Lemma raws_shape st st1 : raws st1 = raws st ->
+  length (threads st1) = length (threads st) /\
+  forall t, t_raw (nth t (threads st1) dummy_thread) = t_raw (nth t (threads st) dummy_thread).
+Proof.
+  intros H. split.
+  - apply (f_equal (@length _)) in H. unfold raws in H. now rewrite !map_length in H.
+  - assert (G : forall s t, t_raw (nth t (threads s) dummy_thread) = nth t (raws s) []).
+    { intros s t. unfold raws. change (@nil raw) with (t_raw dummy_thread). rewrite map_nth. reflexivity. }
+    intros t. rewrite !G, H. reflexivity.
+Qed.
+
+Lemma bso_ext st st1 loom pid e : tasks st1 = tasks st -> body_state_of st1 loom pid e = body_state_of st loom pid e.
+Proof. intros H. unfold body_state_of, find_task. rewrite H. reflexivity. Qed.
+
+Lemma ainv_ext' sx st st1 :
+  length (threads st1) = length (threads st) ->
+  (forall t, length (t_raw (nth t (threads st1) dummy_thread)) = length (t_raw (nth t (threads st) dummy_thread))) ->
+  bstacks st1 = bstacks st -> tasks st1 = tasks st -> AInv sx st -> AInv sx st1.
+Proof.
+  intros Hl Hrt Hb Ht [L R N O].
+  assert (Hbs : forall t, bs st1 t = bs st t) by (intros t; rewrite !bs_bstacks, Hb; reflexivity).
+  split.
+  - congruence.
+  - intros t Hlt. rewrite Hrt. now apply R.
+  - intros t. rewrite Hbs. apply N.
+  - intros t e Hin. rewrite Hbs in Hin. destruct (O t e Hin) as (tk & b & H1 & H2). exists tk, b. split; [|exact H2].
+    rewrite (bso_ext st st1 _ _ _ Ht). exact H1.
+Qed.
+
+Lemma ainv_ext sx st st1 :
+  raws st1 = raws st -> bstacks st1 = bstacks st -> tasks st1 = tasks st -> AInv sx st -> AInv sx st1.
+Proof.
+  intros Hr Hb Ht A. destruct (raws_shape _ _ Hr) as [Hl Hrt].
+  apply (ainv_ext' sx st st1); auto. intros t. now rewrite Hrt.
+Qed.
+
+Lemma entry_eqb_eq (m t b m' t' b' : Z) : (m' =? m) && (t' =? t) && (b' =? b) = true <-> (m', t', b') = (m, t, b).
+Proof.
+  rewrite !andb_true_iff, !Z.eqb_eq. split; [intros [[-> ->] ->]; reflexivity|intros E; injection E as -> -> ->; auto].
+Qed.
+
+Lemma in_remove_entry l m t b e : In e (remove_entry l m t b) -> In e l.
+Proof.
+  induction l as [|[[m' t'] b'] r IH]; cbn [remove_entry]; [auto|].
+  destruct ((m' =? m) && (t' =? t) && (b' =? b)); cbn [In]; [auto|]. intros [H|H]; auto.
+Qed.
+
+Lemma nodup_remove_entry l m t b : NoDup l -> NoDup (remove_entry l m t b) /\ ~ In (m, t, b) (remove_entry l m t b).
+Proof.
+  induction l as [|[[m' t'] b'] r IH]; cbn [remove_entry]; intros H; [split; [constructor|intros []]|].
+  inversion H as [|? ? Hn Hr]; subst.
+  destruct ((m' =? m) && (t' =? t) && (b' =? b)) eqn:E.
+  - apply entry_eqb_eq in E. rewrite <- E. auto.
+  - destruct (IH Hr) as [I1 I2]. split.
+    + constructor; [|exact I1]. intros Hin. apply Hn. eapply in_remove_entry; eauto.
+    + intros [Hin|Hin]; [|now apply I2]. apply entry_eqb_eq in Hin. congruence.
+Qed.
+
+Lemma entry_touch sx st t e loom pid ti tk :
+  AInv sx st -> In e (bs st t) -> ti_loom (tinfo sx t) = loom -> ti_pid (tinfo sx t) = pid ->
+  find_task st loom pid (fst (fst e)) (snd (fst e)) = Some (ti, tk) ->
+  exists i b0, find_body tk (snd e) = Some (i, b0) /\ b_on b0 = Some t.
+Proof.
+  intros A Hin <- <- Hf. destruct (a_on _ _ A t e Hin) as (tk1 & b1 & H1 & H2).
+  destruct e as [[m t'] b]. cbn [fst snd] in *. unfold body_state_of in H1. rewrite Hf in H1.
+  destruct (find_body tk b) as [[i b0]|]; [|discriminate]. injection H1 as <- <-. eauto.
+Qed.
+
+Lemma slot_dec (loom loom' : nat) (pid pid' : Z) (e e' : Z * Z * Z) :
+  {loom' = loom /\ pid' = pid /\ e' = e} + {~ (loom' = loom /\ pid' = pid /\ e' = e)}.
+Proof.
+  destruct (Nat.eq_dec loom' loom) as [E1|N]; [|right; tauto].
+  destruct (Z.eq_dec pid' pid) as [E2|N]; [|right; tauto].
+  destruct e as [[m t] b], e' as [[m' t'] b'].
+  destruct (Z.eq_dec m' m) as [->|N]; [|right; intros (_ & _ & E); congruence].
+  destruct (Z.eq_dec t' t) as [->|N]; [|right; intros (_ & _ & E); congruence].
+  destruct (Z.eq_dec b' b) as [->|N]; [|right; intros (_ & _ & E); congruence].
+  left. auto.
+Qed.
+
+Lemma bs_update st st1 who th' :
+  threads st1 = update (threads st) who th' -> (who < length (threads st))%nat ->
+  forall t, bs st1 t = if Nat.eqb t who then t_bstack th' else bs st t.
+Proof.
+  intros H Hlt t. unfold bs. rewrite H, nth_update_if. apply Nat.ltb_lt in Hlt. rewrite Hlt, andb_true_r.
+  destruct (Nat.eqb t who); reflexivity.
+Qed.
+
+Lemma bs_same st st1 : threads st1 = threads st -> forall t, bs st1 t = bs st t.
+Proof. intros H t. unfold bs. now rewrite H. Qed.
+
+Theorem task_op_ainv sx st who th mdl kind tid bid st1 :
+  AInv sx st -> nth_error (threads st) who = Some th ->
+  task_op st who th (ti_loom (tinfo sx who)) (ti_pid (tinfo sx who)) mdl kind tid bid = Ok st1 ->
+  AInv sx st1.
+Proof.
+  intros A Hn H.
+  destruct (task_op_frame _ _ _ _ _ _ _ _ _ _ Hn H) as [Hraws _].
+  destruct (raws_shape _ _ Hraws) as [Hlen Hrt].
+  pose proof (nth_error_lt _ _ _ Hn) as Hlt.
+  pose proof (nth_error_nth _ _ _ dummy_thread Hn) as Hth.
+  destruct (task_op_inv _ _ _ _ _ _ _ _ _ _ H) as (ti & tk & bi & b' & Hf & Hb & Ht & Hop).
+  set (loom := ti_loom (tinfo sx who)) in *. set (pid := ti_pid (tinfo sx who)) in *.
+  assert (Hbi : match bi with Some i => exists b0, find_body tk bid = Some (i, b0) | None => find_body tk bid = None end).
+  { destruct Hop as [(_ & _ & _ & Hbi & _)|(_ & (i & b0 & -> & Hb0 & _) & _)].
+    - destruct bi as [i|]; [destruct Hbi as (b0 & Hb0 & _); eauto|exact Hbi].
+    - eauto. }
+  destruct (store_body_look st loom pid mdl tid bid ti tk bi b' Hf Hb Hbi) as [(tkn & Hnew & _) Hold].
+  assert (Hnew1 : body_state_of st1 loom pid (mdl, tid, bid) = Some (tkn, b')) by (rewrite (bso_ext _ _ _ _ _ Ht); exact Hnew).
+  (* an entry of some stack that is not the touched body keeps its body *)
+  assert (Hkeep : forall t e, In e (bs st t) ->
+            ~ (ti_loom (tinfo sx t) = loom /\ ti_pid (tinfo sx t) = pid /\ e = (mdl, tid, bid)) ->
+            exists tk1 b1, body_state_of st1 (ti_loom (tinfo sx t)) (ti_pid (tinfo sx t)) e = Some (tk1, b1) /\ b_on b1 = Some t).
+  { intros t e Hin Hne. destruct (a_on _ _ A t e Hin) as (tk1 & b1 & H1 & H2).
+    destruct (Hold _ _ _ _ _ Hne H1) as (tk1' & H1' & _). exists tk1', b1. split; [|exact H2].
+    rewrite (bso_ext _ _ _ _ _ Ht). exact H1'. }
+  (* an entry that is the touched body: the body was on that thread *)
+  assert (Htouch : forall t, In (mdl, tid, bid) (bs st t) -> ti_loom (tinfo sx t) = loom -> ti_pid (tinfo sx t) = pid ->
+            exists i b0, find_body tk bid = Some (i, b0) /\ b_on b0 = Some t).
+  { intros t Hin El Ep. apply (entry_touch sx st t (mdl, tid, bid) loom pid ti tk A Hin El Ep Hf). }
+  split.
+  - rewrite Hlen. exact (a_len _ _ A).
+  - intros t Htl. rewrite Hrt. now apply (a_raw _ _ A).
+  - (* NoDup *)
+    intros t. destruct Hop as [(_ & _ & _ & Hfree & Hthr)|(_ & _ & _ & [(_ & _ & _ & Hthr)|[(_ & _ & Hthr)|(_ & _ & Hthr)]])].
+    + rewrite (bs_update _ _ _ _ Hthr Hlt). destruct (Nat.eqb t who) eqn:E; [|apply (a_nodup _ _ A)].
+      apply Nat.eqb_eq in E. subst t. cbn [t_bstack with_bstack]. constructor; [|rewrite <- Hth; apply (a_nodup _ _ A who)].
+      intros Hin. rewrite <- Hth in Hin. destruct (Htouch who Hin eq_refl eq_refl) as (i & b0 & Hb0 & Hon).
+      destruct bi as [i'|]; [destruct Hfree as (b0' & Hb0' & Hon'); congruence|congruence].
+    + rewrite (bs_same _ _ Hthr). apply (a_nodup _ _ A).
+    + rewrite (bs_same _ _ Hthr). apply (a_nodup _ _ A).
+    + rewrite (bs_update _ _ _ _ Hthr Hlt). destruct (Nat.eqb t who) eqn:E; [|apply (a_nodup _ _ A)].
+      cbn [t_bstack with_bstack]. apply nodup_remove_entry. rewrite <- Hth. apply (a_nodup _ _ A who).
+  - (* on *)
+    intros t e Hin.
+    destruct Hop as [(_ & _ & Hon' & Hfree & Hthr)|(_ & (i & b0 & -> & Hb0 & Hon0) & _ & [(_ & _ & Hon' & Hthr)|[(_ & Hon' & Hthr)|(_ & _ & Hthr)]])].
+    + (* execute *)
+      rewrite (bs_update _ _ _ _ Hthr Hlt) in Hin.
+      assert (Hnot : forall t', In e (bs st t') -> ~ (ti_loom (tinfo sx t') = loom /\ ti_pid (tinfo sx t') = pid /\ e = (mdl, tid, bid))).
+      { intros t' Hin' (El & Ep & ->). destruct (Htouch t' Hin' El Ep) as (i & b0 & Hb0 & Hon).
+        destruct bi as [i'|]; [destruct Hfree as (b0' & Hb0' & Hon''); congruence|congruence]. }
+      destruct (Nat.eqb t who) eqn:E.
+      * apply Nat.eqb_eq in E. subst t. cbn [t_bstack with_bstack In] in Hin. destruct Hin as [<-|Hin].
+        -- exists tkn, b'. split; [exact Hnew1|exact Hon'].
+        -- rewrite <- Hth in Hin. apply Hkeep; [exact Hin|now apply Hnot].
+      * apply Hkeep; [exact Hin|now apply Hnot].
+    + (* pause *)
+      rewrite (bs_same _ _ Hthr) in Hin.
+      destruct (slot_dec loom (ti_loom (tinfo sx t)) pid (ti_pid (tinfo sx t)) (mdl, tid, bid) e) as [(El & Ep & ->)|Hne]; [|now apply Hkeep].
+      destruct (Htouch t Hin El Ep) as (i' & b0' & Hb0' & Hon). assert (t = who) by congruence. subst t.
+      exists tkn, b'. split; [exact Hnew1|exact Hon'].
+    + (* resume *)
+      rewrite (bs_same _ _ Hthr) in Hin.
+      destruct (slot_dec loom (ti_loom (tinfo sx t)) pid (ti_pid (tinfo sx t)) (mdl, tid, bid) e) as [(El & Ep & ->)|Hne]; [|now apply Hkeep].
+      destruct (Htouch t Hin El Ep) as (i' & b0' & Hb0' & Hon). assert (t = who) by congruence. subst t.
+      exists tkn, b'. split; [exact Hnew1|exact Hon'].
+    + (* end *)
+      rewrite (bs_update _ _ _ _ Hthr Hlt) in Hin. destruct (Nat.eqb t who) eqn:E.
+      * apply Nat.eqb_eq in E. subst t. cbn [t_bstack with_bstack] in Hin. rewrite <- Hth in Hin. fold (bs st who) in Hin.
+        destruct (nodup_remove_entry _ mdl tid bid (a_nodup _ _ A who)) as [_ Hnotin].
+        apply Hkeep; [eapply in_remove_entry; eauto|]. intros (_ & _ & ->). contradiction.
+      * apply Nat.eqb_neq in E. apply Hkeep; [exact Hin|]. intros (El & Ep & ->).
+        destruct (Htouch t Hin El Ep) as (i' & b0' & Hb0' & Hon). congruence.
+Qed.
+
+(* ---------------------------------------------------------------- channel writes *)
+
+Lemma raw_apply_rval sp r a v r' d :
+  raw_apply sp r a v = Ok (r', d) -> (a = SET -> r_val r' = v) /\ (a <> SET -> r_val r' = r_val r).
+Proof.
+  unfold raw_apply. intros H. destruct a; destruct v as [x|]; break_in H; inversion H; subst; cbn [r_val];
+    split; intros E; try reflexivity; try discriminate E; try congruence.
+Qed.
+
+Lemma chan_step_eff sx st who k a v st1 d :
+  chan_step sx st who k a v = Ok (st1, d) ->
+  tasks st1 = tasks st /\ bstacks st1 = bstacks st /\
+  (forall t k', (t <> who \/ k' <> k \/ a <> SET) -> rv st1 t k' = rv st t k') /\
+  (AInv sx st -> AInv sx st1 /\ (a = SET -> rv st1 who k = v)).
+Proof.
+  unfold chan_step, nth_opt. intros H.
+  destruct (nth_error (threads st) who) as [th|] eqn:Hn; [|discriminate].
+  destruct (nth_error (s_chans sx) k) as [sp|] eqn:Hsp; [|discriminate].
+  destruct (raw_apply sp (nth k (t_raw th) empty_raw) a v) as [[r' dd]|] eqn:Ea; [|discriminate].
+  inversion H; subst st1 d. clear H.
+  pose proof (nth_error_lt _ _ _ Hn) as Hlt. pose proof (nth_error_lt _ _ _ Hsp) as Hk.
+  pose proof (nth_error_nth _ _ _ dummy_thread Hn) as Hth.
+  destruct (raw_apply_rval _ _ _ _ _ _ Ea) as [Vset Vother].
+  set (th' := with_raw th (update (t_raw th) k r')).
+  assert (Hnth : forall t, nth t (threads (set_thread st who th')) dummy_thread = if Nat.eqb t who then th' else nth t (threads st) dummy_thread).
+  { intros t. cbn [threads set_thread]. rewrite nth_update_if. apply Nat.ltb_lt in Hlt. rewrite Hlt, andb_true_r. reflexivity. }
+  split; [reflexivity|]. split; [apply (bstacks_set_thread st who th); [exact Hn|reflexivity]|]. split.
+  - intros t k' Hc. unfold rv, raw_of. rewrite Hnth. destruct (Nat.eqb t who) eqn:E; [|reflexivity].
+    apply Nat.eqb_eq in E. subst t. rewrite Hth. cbn [t_raw th' with_raw].
+    destruct (Nat.eq_dec k' k) as [->|Hne]; [|rewrite nth_update_other by congruence; reflexivity].
+    destruct Hc as [Hc|[Hc|Hc]]; try congruence.
+    destruct (nth_update_cases (t_raw th) k k r' empty_raw) as [E|E]; rewrite E; [now apply Vother|reflexivity].
+  - intros A. split.
+    + apply (ainv_ext' sx st); try reflexivity; [cbn [threads set_thread]; apply update_length| |apply (bstacks_set_thread st who th); [exact Hn|reflexivity]|exact A].
+      intros t. rewrite Hnth. destruct (Nat.eqb t who) eqn:E; [|reflexivity]. apply Nat.eqb_eq in E. subst t.
+      rewrite Hth. cbn [t_raw th' with_raw]. apply update_length.
+    + intros Ha. unfold rv, raw_of. rewrite Hnth, Nat.eqb_refl. cbn [t_raw th' with_raw].
+      rewrite nth_update_same; [now apply Vset|].
+      rewrite <- Hth. rewrite (a_raw _ _ A who); [exact Hk|]. rewrite <- (a_len _ _ A). exact Hlt.
+Qed.
+
+Lemma set_chans_eff sx who ws : forall st d0 st1 d,
+  set_chans sx st who ws d0 = Ok (st1, d) -> AInv sx st -> NoDup (map fst ws) ->
+  AInv sx st1 /\ tasks st1 = tasks st /\ bstacks st1 = bstacks st /\
+  (forall k v, In (k, v) ws -> rv st1 who k = v) /\
+  (forall t k, (t <> who \/ ~ In k (map fst ws)) -> rv st1 t k = rv st t k).
+Proof.
+  induction ws as [|[k v] ws IH]; intros st d0 st1 d H A N; cbn [set_chans] in H.
+  - inversion H; subst. split; [exact A|]. split; [reflexivity|]. split; [reflexivity|]. split; [intros k v []|reflexivity].
+  - destruct (chan_step sx st who k SET v) as [[st' d1]|] eqn:E; [|discriminate].
+    destruct (chan_step_eff _ _ _ _ _ _ _ _ E) as (T1 & B1 & R1 & A1). destruct (A1 A) as [A' S1]. specialize (S1 eq_refl).
+    cbn [map fst] in N. apply NoDup_cons_iff in N as [Nk Nr].
+    destruct (IH _ _ _ _ H A' Nr) as (A2 & T2 & B2 & S2 & R2).
+    split; [exact A2|]. split; [congruence|]. split; [congruence|]. split.
+    + intros k0 v0 [Eq|Hin]; [injection Eq as <- <-|now apply S2].
+      rewrite (R2 who k); [exact S1|right; exact Nk].
+    + intros t k0 Hc. rewrite (R2 t k0).
+      * apply R1. destruct Hc as [Hc|Hc]; [now left|right; left]. intros ->. apply Hc. now left.
+      * destruct Hc as [Hc|Hc]; [now left|right]. intros Hin. apply Hc. now right.
+Qed.
+
+(* ---------------------------------------------------------------- what an accepted task event does *)
+
+Definition rank_filter (ti : thread_info) (l : list (tfield * nat)) : list (tfield * nat) :=
+  filter (fun '(f, _) => match f with FRank => 0 <=? ti_rank ti | _ => true end) l.
+
+Lemma task_op_kinds st who th loom pid mdl kind tid bid st1 :
+  task_op st who th loom pid mdl kind tid bid = Ok st1 -> kind = 120 \/ kind = 112 \/ kind = 114 \/ kind = 101.
+Proof.
+  intros H. destruct (task_op_inv _ _ _ _ _ _ _ _ _ _ H) as (? & ? & ? & ? & _ & _ & _ & [(K & _)|(_ & _ & _ & [(K & _)|[(K & _)|(K & _)]])]); auto.
+Qed.
+
+Lemma task_event_inv sx st who cfg mdl kind tid rawbid st3 d :
+  task_event sx st who cfg mdl kind tid rawbid = Ok (st3, d) ->
+  exists th ti bid s1 s2 d1 V,
+    nth_error (threads st) who = Some th /\ nth_error (s_threads sx) who = Some ti /\
+    task_op st who th (ti_loom ti) (ti_pid ti) mdl kind tid bid = Ok s1 /\
+    (s2 = s1 \/ exists a, a <> SET /\ chan_step sx s1 who (tc_ss cfg) a (Some (tc_ssval cfg)) = Ok (s2, d1)) /\
+    set_chans sx s2 who (map (fun '(f, k) => (k, V f)) (rank_filter ti (tc_chans cfg))) d1 = Ok (st3, d) /\
+    ((kind = 112 /\ forall f, V f = None) \/
+     forall f, V f = match running_top s1 (ti_loom ti) (ti_pid ti) (nth who (threads s1) dummy_thread) mdl with
+                     | Some (tn, bn) => field_value ti tn bn f | None => None end).
+Proof.
+  unfold task_event, nth_opt. intros H.
+  destruct (nth_error (threads st) who) as [th|] eqn:Hn; [|discriminate].
+  destruct (nth_error (s_threads sx) who) as [ti|] eqn:Hi; [|discriminate].
+  destruct (find_task st (ti_loom ti) (ti_pid ti) mdl tid) as [[i0 tk0]|]; [|discriminate].
+  match type of H with match ?o with Some _ => _ | None => _ end = _ => destruct o as [bid|]; [|discriminate] end.
+  destruct (task_op st who th (ti_loom ti) (ti_pid ti) mdl kind tid bid) as [s1|] eqn:Eop; [|discriminate].
+  match type of H with match ?ssr with Ok _ => _ | Err _ => _ end = _ => destruct ssr as [[s2 d1]|] eqn:Ess; [|discriminate] end.
+  match type of H with match ?w with Ok _ => _ | Err _ => _ end = _ => destruct w as [ws|] eqn:Ew; [|discriminate] end.
+  destruct (set_chans sx s2 who ws d1) as [[s3 d']|] eqn:Esc; [|discriminate].
+  assert (E3 : s3 = st3 /\ d' = d) by (break_in H; inversion H; subst; auto). destruct E3 as [-> ->]. clear H.
+  assert (Hss : s2 = s1 \/ exists a, a <> SET /\ chan_step sx s1 who (tc_ss cfg) a (Some (tc_ssval cfg)) = Ok (s2, d1)).
+  { destruct (kind =? 120); [right; exists PUSH; split; [discriminate|exact Ess]|].
+    destruct (kind =? 101); [right; exists POP; split; [discriminate|exact Ess]|]. left. now inversion Ess. }
+  pose proof (task_op_kinds _ _ _ _ _ _ _ _ _ _ Eop) as K.
+  exists th, ti, bid, s1, s2, d1.
+  fold (rank_filter ti (tc_chans cfg)) in Ew.
+  remember (running_top s1 (ti_loom ti) (ti_pid ti) (nth who (threads s1) dummy_thread) mdl) as next eqn:Enext.
+  remember (running_top st (ti_loom ti) (ti_pid ti) th mdl) as prev eqn:Eprev.
+  clear Ess.
+  destruct next as [[tn bn]|]; destruct prev as [[tp bp]|].
+  all: repeat match type of Ew with
+       | (if ?c then _ else _) = _ => let E := fresh "Hc" in destruct c eqn:E
+       | Err _ = Ok _ => discriminate Ew
+       end; injection Ew as <-.
+  all: try (exists (fun f => field_value ti tn bn f); repeat (split; [assumption || reflexivity|]); right; reflexivity).
+  all: exists (fun _ : tfield => None); repeat (split; [assumption || reflexivity|]).
+  all: try (right; reflexivity).
+  all: left; split; [|reflexivity]; destruct K as [ -> | [ -> | [ -> | -> ] ] ]; try reflexivity;
+       repeat match goal with H : _ = false |- _ => vm_compute in H; try discriminate H; clear H end.
+Qed.
+
+(* ---------------------------------------------------------------- the running body of a thread across an operation *)
+
+Lemma model_stack_head th mdl e r : model_stack th mdl = e :: r -> fst (fst e) = mdl /\ In e (t_bstack th).
+Proof.
+  unfold model_stack. intros H.
+  assert (Hin : In e (filter (fun '(m, _, _) => m =? mdl) (t_bstack th))) by (rewrite H; now left).
+  apply filter_In in Hin as [Hin Hm]. destruct e as [[m t] b]. cbn [fst]. apply Z.eqb_eq in Hm. auto.
+Qed.
+
+Lemma expected_same ti tk b tk' f : tk_id tk' = tk_id tk -> tk_gid tk' = tk_gid tk -> expected_field ti tk' b f = expected_field ti tk b f.
+Proof. intros H1 H2. unfold expected_field, field_value. destruct f; congruence. Qed.
+
+Lemma rtop_sim st st1 loom pid th th1 mdl ti :
+  model_stack th1 mdl = model_stack th mdl ->
+  (forall e r, model_stack th mdl = e :: r ->
+     exists tk b tk', body_state_of st loom pid e = Some (tk, b) /\ body_state_of st1 loom pid e = Some (tk', b) /\
+                      tk_id tk' = tk_id tk /\ tk_gid tk' = tk_gid tk) ->
+  forall f, expected ti (running_top st1 loom pid th1 mdl) f = expected ti (running_top st loom pid th mdl) f.
+Proof.
+  intros Hm Hs f. unfold running_top. rewrite Hm. destruct (model_stack th mdl) as [|e r]; [reflexivity|].
+  destruct (Hs e r eq_refl) as (tk & b & tk' & -> & -> & H1 & H2).
+  destruct (bstate_eqb (b_state b) BRunning); [|reflexivity]. cbn [expected]. now apply expected_same.
+Qed.
+
+Lemma filter_remove_entry l mdl tid bid mdl' :
+  mdl' <> mdl ->
+  filter (fun '(m, _, _) => m =? mdl') (remove_entry l mdl tid bid) = filter (fun '(m, _, _) => m =? mdl') l.
+Proof.
+  intros Hne. induction l as [|[[m t] b] r IH]; [reflexivity|]. cbn [remove_entry].
+  destruct ((m =? mdl) && (t =? tid) && (b =? bid)) eqn:E.
+  - apply andb_prop in E as [E _]. apply andb_prop in E as [E _]. apply Z.eqb_eq in E. subst m.
+    cbn [filter]. destruct (mdl =? mdl') eqn:E2; [apply Z.eqb_eq in E2; congruence|reflexivity].
+  - cbn [filter]. rewrite IH. reflexivity.
+Qed.
+
+(* the bodies behind the stack entries of other threads, or of another model, are not the touched one *)
+Lemma task_op_keep sx st who th mdl kind tid bid s1 :
+  AInv sx st -> nth_error (threads st) who = Some th ->
+  task_op st who th (ti_loom (tinfo sx who)) (ti_pid (tinfo sx who)) mdl kind tid bid = Ok s1 ->
+  forall t e, In e (bs st t) -> (t <> who \/ fst (fst e) <> mdl) ->
+  forall tk b, body_state_of st (ti_loom (tinfo sx t)) (ti_pid (tinfo sx t)) e = Some (tk, b) ->
+  exists tk', body_state_of s1 (ti_loom (tinfo sx t)) (ti_pid (tinfo sx t)) e = Some (tk', b) /\
+              tk_id tk' = tk_id tk /\ tk_gid tk' = tk_gid tk.
+Proof.
+  intros A Hn H t e Hin Hc tk1 b1 H1.
+  destruct (task_op_inv _ _ _ _ _ _ _ _ _ _ H) as (ti & tk & bi & b' & Hf & Hb & Ht & Hop).
+  set (loom := ti_loom (tinfo sx who)) in *. set (pid := ti_pid (tinfo sx who)) in *.
+  assert (Hbi : match bi with Some i => exists b0, find_body tk bid = Some (i, b0) | None => find_body tk bid = None end).
+  { destruct Hop as [(_ & _ & _ & Hbi & _)|(_ & (i & b0 & -> & Hb0 & _) & _)].
+    - destruct bi as [i|]; [destruct Hbi as (b0 & Hb0 & _); eauto|exact Hbi].
+    - eauto. }
+  destruct (store_body_look st loom pid mdl tid bid ti tk bi b' Hf Hb Hbi) as [_ Hold].
+  assert (Hne : ~ (ti_loom (tinfo sx t) = loom /\ ti_pid (tinfo sx t) = pid /\ e = (mdl, tid, bid))).
+  { intros (El & Ep & ->). destruct Hc as [Hc|Hc]; [|now apply Hc].
+    destruct (entry_touch sx st t (mdl, tid, bid) loom pid ti tk A Hin El Ep Hf) as (i & b0 & Hb0 & Hon). cbn [snd] in Hb0.
+    destruct Hop as [(_ & _ & _ & Hfree & _)|(_ & (i' & b0' & _ & Hb0' & Hon') & _)].
+    - destruct bi as [i'|]; [destruct Hfree as (b0' & Hb0' & Hon'); congruence|congruence].
+    - congruence. }
+  destruct (Hold _ _ _ _ _ Hne H1) as (tk1' & H1' & Hid). exists tk1'. split; [|exact Hid].
+  rewrite (bso_ext _ _ _ _ _ Ht). exact H1'.
+Qed.
+
+Lemma task_op_bs sx st who th mdl kind tid bid s1 :
+  nth_error (threads st) who = Some th ->
+  task_op st who th (ti_loom (tinfo sx who)) (ti_pid (tinfo sx who)) mdl kind tid bid = Ok s1 ->
+  forall t mdl', (t <> who \/ mdl' <> mdl) ->
+  model_stack (nth t (threads s1) dummy_thread) mdl' = model_stack (nth t (threads st) dummy_thread) mdl'.
+Proof.
+  intros Hn H t mdl' Hc.
+  pose proof (nth_error_lt _ _ _ Hn) as Hlt. pose proof (nth_error_nth _ _ _ dummy_thread Hn) as Hth.
+  destruct (task_op_inv _ _ _ _ _ _ _ _ _ _ H) as (ti & tk & bi & b' & _ & _ & _ & Hop).
+  unfold model_stack. fold (bs s1 t) (bs st t).
+  destruct Hop as [(_ & _ & _ & _ & Hthr)|(_ & _ & _ & [(_ & _ & _ & Hthr)|[(_ & _ & Hthr)|(_ & _ & Hthr)]])].
+  - rewrite (bs_update _ _ _ _ Hthr Hlt). destruct (Nat.eqb t who) eqn:E; [|reflexivity]. apply Nat.eqb_eq in E. subst t.
+    destruct Hc as [Hc|Hc]; [congruence|]. cbn [t_bstack with_bstack filter].
+    destruct (mdl =? mdl') eqn:E2; [apply Z.eqb_eq in E2; congruence|]. unfold bs. now rewrite Hth.
+  - now rewrite (bs_same _ _ Hthr).
+  - now rewrite (bs_same _ _ Hthr).
+  - rewrite (bs_update _ _ _ _ Hthr Hlt). destruct (Nat.eqb t who) eqn:E; [|reflexivity]. apply Nat.eqb_eq in E. subst t.
+    destruct Hc as [Hc|Hc]; [congruence|]. cbn [t_bstack with_bstack]. rewrite filter_remove_entry by exact Hc. unfold bs. now rewrite Hth.
+Qed.
+
+Lemma task_op_other_top sx st who th mdl kind tid bid s1 t mdl' :
+  AInv sx st -> nth_error (threads st) who = Some th ->
+  task_op st who th (ti_loom (tinfo sx who)) (ti_pid (tinfo sx who)) mdl kind tid bid = Ok s1 ->
+  (t <> who \/ mdl' <> mdl) ->
+  forall f, expected (tinfo sx t) (thread_top sx s1 t mdl') f = expected (tinfo sx t) (thread_top sx st t mdl') f.
+Proof.
+  intros A Hn H Hc f. unfold thread_top. apply rtop_sim.
+  - eapply task_op_bs; eauto.
+  - intros e r Hm. destruct (model_stack_head _ _ _ _ Hm) as [Hmdl Hin]. fold (bs st t) in Hin.
+    destruct (a_on _ _ A t e Hin) as (tk & b & H1 & _).
+    destruct (task_op_keep sx st who th mdl kind tid bid s1 A Hn H t e Hin) with (tk := tk) (b := b) as (tk' & H1' & Hid & Hg).
+    + destruct Hc as [Hc|Hc]; [now left|right; congruence].
+    + exact H1.
+    + exists tk, b, tk'. auto.
+Qed.
+
+Lemma pause_top sx st who th mdl tid bid s1 :
+  nth_error (threads st) who = Some th ->
+  task_op st who th (ti_loom (tinfo sx who)) (ti_pid (tinfo sx who)) mdl 112 tid bid = Ok s1 ->
+  thread_top sx s1 who mdl = None.
+Proof.
+  intros Hn H. pose proof (nth_error_nth _ _ _ dummy_thread Hn) as Hth.
+  destruct (task_op_inv _ _ _ _ _ _ _ _ _ _ H) as (ti & tk & bi & b' & Hf & Hb & Ht & Hop).
+  destruct Hop as [(K & _)|(_ & (i & b0 & -> & Hb0 & _) & Htop & [(_ & Hst & _ & Hthr)|[(K & _)|(K & _)]])]; try discriminate K.
+  destruct (store_body_look st _ _ mdl tid bid ti tk (Some i) b' Hf Hb (ex_intro _ b0 Hb0)) as [(tkn & Hnew & _) _].
+  unfold thread_top, running_top. rewrite Hthr, Hth. unfold is_top in Htop.
+  destruct (model_stack th mdl) as [|[[m t] b] r] eqn:Em; [discriminate|].
+  destruct (model_stack_head _ _ _ _ Em) as [Hm _]. cbn [fst] in Hm. subst m.
+  apply andb_prop in Htop as [E1 E2]. apply Z.eqb_eq in E1, E2. subst t b.
+  rewrite (bso_ext _ _ _ _ _ Ht), Hnew, Hst. reflexivity.
+Qed.
+
+(* ---------------------------------------------------------------- static facts and the event condition *)
+
+Record TaskStatic (sx : static) (en : list Z) : Prop := {
+  ts_nodup : forall cfg mdl, In (cfg, mdl) (task_models en (s_chans sx)) -> NoDup (map snd (tc_chans cfg));
+  ts_spec : forall cfg mdl f k, In (cfg, mdl) (task_models en (s_chans sx)) -> In (f, k) (tc_chans cfg) ->
+            (k < length (s_chans sx))%nat /\ cs_stack (spec_of sx k) = false /\ cs_init (spec_of sx k) = None;
+  ts_disj : forall cfg mdl cfg' mdl', In (cfg, mdl) (task_models en (s_chans sx)) -> In (cfg', mdl') (task_models en (s_chans sx)) ->
+            (cfg = cfg' /\ mdl = mdl') \/
+            (mdl <> mdl' /\ forall f k f' k', In (f, k) (tc_chans cfg) -> In (f', k') (tc_chans cfg') -> k <> k')
+}.
+
+(* task events belong to an enabled task model; no other event sets a task channel *)
+Definition ev_tv (sx : static) (en : list Z) (ev : event) : Prop :=
+  match ev with
+  | EvChan k a _ _ => a = SET -> forall cfg mdl f k', In (cfg, mdl) (task_models en (s_chans sx)) -> In (f, k') (tc_chans cfg) -> k' <> k
+  | EvTask cfg mdl _ _ _ => In (cfg, mdl) (task_models en (s_chans sx))
+  | _ => True
+  end.
+
+Lemma map_fst_writes (V : tfield -> value) (l : list (tfield * nat)) : map fst (map (fun '(f, k) => (k, V f)) l) = map snd l.
+Proof. induction l as [|[f k] l IH]; [reflexivity|]. cbn [map fst snd]. now rewrite IH. Qed.
+
+Lemma nodup_map_filter {A B} (g : A -> B) (p : A -> bool) (l : list A) : NoDup (map g l) -> NoDup (map g (filter p l)).
+Proof.
+  induction l as [|a l IH]; cbn [map filter]; intros H; [constructor|]. apply NoDup_cons_iff in H as [Hn Hr].
+  destruct (p a); [|now apply IH]. cbn [map]. constructor; [|now apply IH].
+  intros Hin. apply Hn. apply in_map_iff in Hin as (x & E & Hx). apply filter_In in Hx as [Hx _]. apply in_map_iff. eauto.
+Qed.
+
+Lemma nodup_snd_unique {A B} (l : list (A * B)) a a' k : NoDup (map snd l) -> In (a, k) l -> In (a', k) l -> a = a'.
+Proof.
+  induction l as [|[x y] l IH]; cbn [map snd In]; intros N H1 H2; [contradiction|]. apply NoDup_cons_iff in N as [Hn Hr].
+  destruct H1 as [E1|H1], H2 as [E2|H2].
+  - congruence.
+  - injection E1 as -> ->. exfalso. apply Hn. apply in_map_iff. exists (a', k). auto.
+  - injection E2 as -> ->. exfalso. apply Hn. apply in_map_iff. exists (a, k). auto.
+  - eauto.
+Qed.
+
+Lemma expected_norank ti o : (0 <=? ti_rank ti) = false -> expected ti o FRank = None.
+Proof. intros E. destruct o as [[tk b]|]; [|reflexivity]. cbn [expected expected_field]. now rewrite E. Qed.
+
+Lemma expected_pass ti o f :
+  (match f with FRank => 0 <=? ti_rank ti | _ => true end) = true ->
+  expected ti o f = match o with Some (tn, bn) => field_value ti tn bn f | None => None end.
+Proof. intros E. destruct o as [[tk b]|]; [|reflexivity]. cbn [expected]. unfold expected_field. destruct f; try reflexivity. now rewrite E. Qed.
+
+Theorem task_event_tv sx en st who cfg mdl kind tid rawbid st3 d :
+  TaskStatic sx en -> In (cfg, mdl) (task_models en (s_chans sx)) -> AInv sx st -> TV sx en st ->
+  task_event sx st who cfg mdl kind tid rawbid = Ok (st3, d) -> AInv sx st3 /\ TV sx en st3.
+Proof.
+  intros TS Hcfg A T H.
+  destruct (task_event_inv _ _ _ _ _ _ _ _ _ _ H) as (th & ti & bid & s1 & s2 & d1 & V & Hn & Hi & Eop & Hss & Esc & HV).
+  assert (Eti : tinfo sx who = ti) by (unfold tinfo; now apply nth_error_nth). rewrite <- Eti in Eop.
+  assert (A1 : AInv sx s1) by (eapply task_op_ainv; eauto).
+  destruct (task_op_frame _ _ _ _ _ _ _ _ _ _ Hn Eop) as [Hraws1 _].
+  assert (X2 : AInv sx s2 /\ tasks s2 = tasks s1 /\ bstacks s2 = bstacks s1 /\ forall t k, rv s2 t k = rv s1 t k).
+  { destruct Hss as [->|(a & Ha & Ess)]; [auto|].
+    destruct (chan_step_eff _ _ _ _ _ _ _ _ Ess) as (T2 & B2 & R2 & A2). destruct (A2 A1) as [A2' _].
+    split; [exact A2'|]. split; [exact T2|]. split; [exact B2|]. intros t k. apply R2. right; right; exact Ha. }
+  destruct X2 as (A2 & T2 & B2 & R2).
+  set (ws := map (fun '(f, k) => (k, V f)) (rank_filter ti (tc_chans cfg))) in *.
+  assert (Nws : NoDup (map fst ws)).
+  { subst ws. rewrite map_fst_writes. apply nodup_map_filter. exact (ts_nodup _ _ TS _ _ Hcfg). }
+  destruct (set_chans_eff _ _ _ _ _ _ _ Esc A2 Nws) as (A3 & T3 & B3 & S3 & R3).
+  split; [exact A3|].
+  assert (Htop : forall t m, thread_top sx st3 t m = thread_top sx s1 t m).
+  { intros t m. apply thread_top_ext; [congruence|]. rewrite !bs_bstacks. congruence. }
+  assert (Hrv1 : forall t k, rv s1 t k = rv st t k) by (intros t k; unfold rv; now rewrite (raw_of_same_raws _ _ Hraws1)).
+  intros t Ht cfg' mdl' Hcfg' f k Hfk. fold (rv st3 t k). rewrite Htop.
+  assert (Hold : rv st t k = expected (tinfo sx t) (thread_top sx st t mdl') f) by (apply (T t Ht cfg' mdl' Hcfg' f k Hfk)).
+  assert (Hws : In k (map fst ws) -> exists f', In (f', k) (tc_chans cfg) /\ (match f' with FRank => 0 <=? ti_rank ti | _ => true end) = true).
+  { subst ws. rewrite map_fst_writes. intros Hin. apply in_map_iff in Hin as ([f' k'] & E & Hin). cbn [snd] in E. subst k'.
+    apply filter_In in Hin. exists f'. exact Hin. }
+  destruct (ts_disj _ _ TS _ _ _ _ Hcfg Hcfg') as [[<- <-]|[Hm Hd]].
+  - destruct (Nat.eq_dec t who) as [->|Hne].
+    + rewrite Eti.
+      destruct (match f with FRank => 0 <=? ti_rank ti | _ => true end) eqn:Ef.
+      * assert (Hin : In (k, V f) ws).
+        { subst ws. apply in_map_iff. exists (f, k). split; [reflexivity|]. apply filter_In. auto. }
+        rewrite (S3 _ _ Hin), (expected_pass _ _ _ Ef).
+        destruct HV as [[-> HV]|HV].
+        -- rewrite HV, (pause_top sx st who th mdl tid bid s1 Hn Eop). reflexivity.
+        -- rewrite HV. unfold thread_top. rewrite Eti. reflexivity.
+      * assert (f = FRank) by (destruct f; try discriminate Ef; reflexivity). subst f.
+        rewrite (expected_norank _ _ Ef). rewrite R3, R2, Hrv1, Hold, Eti; [now apply expected_norank|].
+        right. intros Hin. destruct (Hws Hin) as (f' & Hin' & Ef').
+        assert (FRank = f') by (eapply nodup_snd_unique; [exact (ts_nodup _ _ TS _ _ Hcfg)|exact Hfk|exact Hin']). subst f'. congruence.
+    + rewrite R3 by (now left). rewrite R2, Hrv1, Hold. symmetry. eapply task_op_other_top; eauto.
+  - rewrite R3, R2, Hrv1, Hold.
+    + symmetry. eapply task_op_other_top; eauto.
+    + right. intros Hin. destruct (Hws Hin) as (f' & Hin' & _). exact (Hd _ _ _ _ Hin' Hfk eq_refl).
+Qed.
+
+(* ---------------------------------------------------------------- every event *)
+
+Lemma tv_ext sx en st st1 :
+  raws st1 = raws st -> bstacks st1 = bstacks st -> tasks st1 = tasks st -> TV sx en st -> TV sx en st1.
+Proof.
+  intros Hr Hb Ht T t Hlt cfg mdl Hc f k Hfk. rewrite (raw_of_same_raws _ _ Hr).
+  rewrite (thread_top_ext sx st st1 t mdl Ht); [now apply (T t Hlt cfg mdl Hc f k Hfk)|]. rewrite !bs_bstacks. congruence.
+Qed.
+
+Lemma change_state_bstacks sx st who th ok new st1 :
+  nth_error (threads st) who = Some th -> change_state sx st who th ok new = Ok st1 -> bstacks st1 = bstacks st.
+Proof.
+  intros Hn H. unfold change_state in H. break_in H. inversion H; subst.
+  change (bstacks (touch (set_thread st who (with_state th new)) n)) with (bstacks (set_thread st who (with_state th new))).
+  apply (bstacks_set_thread st who th); [exact Hn|reflexivity].
+Qed.
+
+Lemma migrate_bstacks sx st t th old new st1 :
+  nth_error (threads st) t = Some th -> migrate sx st t th old new = Ok st1 -> bstacks st1 = bstacks st.
+Proof.
+  intros Hn H. unfold migrate in H. break_in H. inversion H; subst.
+  etransitivity; [apply (bstacks_set_thread _ t th); [exact Hn|reflexivity]|reflexivity].
+Qed.
+
+Lemma oh_step_bstacks sx st who e st1 : oh_step sx st who e = Ok st1 -> bstacks st1 = bstacks st.
+Proof.
+  intros H. unfold oh_step, nth_opt in H.
+  destruct (nth_error (threads st) who) as [th|] eqn:Hn; [|discriminate].
+  destruct (t_ooc th); [discriminate|].
+  assert (G : forall th' c l, t_bstack th' = t_bstack th ->
+            bstacks (touch (set_cpu_threads (set_thread st who th') c l) c) = bstacks st).
+  { intros th' c l Hb. change (bstacks (touch (set_cpu_threads (set_thread st who th') c l) c)) with (bstacks (set_thread st who th')).
+    apply (bstacks_set_thread st who th); [exact Hn|exact Hb]. }
+  destruct e.
+  - break_in H. inversion H; subst. apply G. reflexivity.
+  - break_in H; inversion H; subst; apply G; reflexivity.
+  - eapply change_state_bstacks; eauto.
+  - eapply change_state_bstacks; eauto.
+  - eapply change_state_bstacks; eauto.
+  - eapply change_state_bstacks; eauto.
+  - destruct (t_cpu th) as [old|]; [|discriminate].
+    destruct (negb (is_active (t_state th))); [discriminate|].
+    destruct (find_cpu sx (thread_loom sx who) cpuidx) as [new|]; [|discriminate].
+    destruct (Nat.eqb old new); [inversion H; subst; reflexivity|eapply migrate_bstacks; eauto].
+  - destruct (find_remote sx who tid) as [r|]; [|discriminate].
+    destruct (nth_error (threads st) r) as [rth|] eqn:Hr; [|discriminate].
+    destruct (t_state rth); try discriminate;
+      (destruct (t_cpu rth) as [old|]; [|discriminate];
+       destruct (find_cpu sx (thread_loom sx who) cpuidx) as [new|]; [|discriminate];
+       destruct (Nat.eqb old new); [discriminate|]; eapply migrate_bstacks; eauto).
+Qed.
+
+Lemma bso_app st tk loom pid e x :
+  body_state_of st loom pid e = Some x -> body_state_of (set_tasks st (tasks st ++ [tk])) loom pid e = Some x.
+Proof.
+  destruct e as [[m t] b]. unfold body_state_of, find_task. cbn [tasks set_tasks]. intros H.
+  destruct (find_task_from (tasks st) loom pid m t 0) as [[i tk0]|] eqn:E; [|discriminate].
+  rewrite (ft_app _ tk _ _ _ _ _ _ _ E). exact H.
+Qed.
+
+Theorem core_step_tv sx en st who ev st1 dirty :
+  TaskStatic sx en -> ev_tv sx en ev -> AInv sx st -> TV sx en st ->
+  core_step sx st who ev = Ok (st1, dirty) -> AInv sx st1 /\ TV sx en st1.
+Proof.
+  intros TS Hev A T H. unfold core_step, nth_opt in H. destruct ev.
+  - (* EvOvni *) destruct (oh_step sx st who e) as [s|] eqn:E; [|discriminate]. inversion H; subst.
+    destruct (oh_step_frame _ _ _ _ _ E) as [Hr _]. pose proof (oh_step_bstacks _ _ _ _ _ E) as Hb. pose proof (oh_step_tasks _ _ _ _ _ E) as Ht.
+    split; [eapply ainv_ext; eauto|eapply tv_ext; eauto].
+  - (* EvChan *) destruct (nth_error (threads st) who) as [th|]; [|discriminate].
+    assert (Hc : chan_step sx st who k a v = Ok (st1, dirty)) by (break_in H; exact H). clear H.
+    destruct (chan_step_eff _ _ _ _ _ _ _ _ Hc) as (T1 & B1 & R1 & A1). destruct (A1 A) as [A' _]. split; [exact A'|].
+    intros t Hlt cfg mdl Hcfg f k' Hfk. fold (rv st1 t k'). rewrite R1.
+    + rewrite (thread_top_ext sx st st1 t mdl T1); [now apply (T t Hlt cfg mdl Hcfg f k' Hfk)|]. rewrite !bs_bstacks. congruence.
+    + cbn [ev_tv] in Hev. destruct a; try (right; right; discriminate). right; left. eapply Hev; eauto.
+  - (* EvOoc *) destruct (nth_error (threads st) who) as [th|] eqn:Hn; [|discriminate].
+    set (st' := set_thread st who (with_ooc th out)) in *.
+    assert (Hr : raws st' = raws st) by (apply (raws_set_thread st who th); [exact Hn|reflexivity]).
+    assert (Hb : bstacks st' = bstacks st) by (apply (bstacks_set_thread st who th); [exact Hn|reflexivity]).
+    assert (A0 : AInv sx st') by (apply (ainv_ext sx st); auto).
+    assert (T0 : TV sx en st') by (apply (tv_ext sx en st); auto).
+    destruct (chan_step_eff _ _ _ _ _ _ _ _ H) as (T1 & B1 & R1 & A1). destruct (A1 A0) as [A' _]. split; [exact A'|].
+    intros t Hlt cfg mdl Hcfg f k' Hfk. fold (rv st1 t k'). rewrite R1.
+    + rewrite (thread_top_ext sx st' st1 t mdl T1); [now apply (T0 t Hlt cfg mdl Hcfg f k' Hfk)|]. rewrite !bs_bstacks. congruence.
+    + right; right. destruct out; discriminate.
+  - (* EvTask *) destruct (nth_error (threads st) who) as [th|]; [|discriminate].
+    destruct (need_ok (tc_need cfg) th); [|discriminate]. eapply task_event_tv; eauto.
+  - (* EvTaskCreate *) destruct (nth_error (threads st) who) as [th|]; [|discriminate].
+    destruct (need_ok need th); [|discriminate].
+    destruct (task_create sx st who mdl tid typeid par res pause relax) as [s|] eqn:E; [|discriminate].
+    inversion H; subst. unfold task_create, nth_opt in E. break_in E. inversion E; subst. clear E H.
+    match goal with |- AInv _ (set_tasks _ (_ ++ [?x])) /\ _ => set (tkn := x) end.
+    split.
+    + destruct A as [L R N O]. split; try assumption.
+      intros tq e Hin. destruct (O tq e Hin) as (tk & b & H1 & H2). exists tk, b. split; [now apply bso_app|exact H2].
+    + intros tq Hlt cfg mdl0 Hcfg f k Hfk. change (raw_of (set_tasks st (tasks st ++ [tkn])) tq k) with (raw_of st tq k).
+      rewrite (T tq Hlt cfg mdl0 Hcfg f k Hfk). symmetry. unfold thread_top. apply rtop_sim; [reflexivity|].
+      intros e r Hm. destruct (model_stack_head _ _ _ _ Hm) as [_ Hin]. fold (bs st tq) in Hin.
+      destruct (a_on _ _ A tq e Hin) as (tk & b & H1 & _). exists tk, b, tk. split; [exact H1|]. split; [now apply bso_app|auto].
+  - (* EvTypeCreate *) destruct (nth_error (threads st) who) as [th|]; [|discriminate].
+    destruct (need_ok need th); [|discriminate].
+    destruct (type_create sx st who mdl typeid gid) as [s|] eqn:E; [|discriminate].
+    inversion H; subst. unfold type_create, nth_opt in E. break_in E. inversion E; subst.
+    split; [apply (ainv_ext sx st); auto|apply (tv_ext sx en st); auto].
+  - (* EvNop *) destruct (nth_error (threads st) who) as [th|]; [|discriminate].
+    destruct (t_ooc th); [discriminate|]. inversion H; subst. auto.
+  - discriminate.
+Qed.
+
+Lemma bs_init sx t : bs (init sx) t = [].
+Proof.
+  unfold bs. destruct (Nat.lt_ge_cases t (length (s_threads sx))) as [H|H].
+  - rewrite thr_init by exact H. reflexivity.
+  - rewrite nth_overflow; [reflexivity|]. cbn [init threads]. now rewrite map_length.
+Qed.
+
+Lemma init_tv sx en : TaskStatic sx en -> AInv sx (init sx) /\ TV sx en (init sx).
+Proof.
+  intros TS. split.
+  - split.
+    + cbn [init threads]. apply map_length.
+    + intros t Ht. rewrite thr_init by exact Ht. cbn [init_thread t_raw]. apply map_length.
+    + intros t. rewrite bs_init. constructor.
+    + intros t e Hin. rewrite bs_init in Hin. contradiction.
+  - intros t Ht cfg mdl Hcfg f k Hfk. destruct (ts_spec _ _ TS _ _ _ _ Hcfg Hfk) as (Hk & _ & Hi).
+    unfold raw_of. rewrite thr_init by exact Ht. cbn [init_thread t_raw].
+    change empty_raw with ((fun sp => {| r_stk := []; r_val := cs_init sp |}) null_spec). rewrite map_nth. fold (spec_of sx k).
+    cbn [r_val]. rewrite Hi. unfold thread_top, running_top, model_stack. fold (bs (init sx) t). rewrite bs_init. reflexivity.
+Qed.
+
+Theorem run_from_tv sx en : TaskStatic sx en -> forall evs st st' tl,
+  Forall (fun e => ev_tv sx en (snd e)) evs -> AInv sx st -> TV sx en st ->
+  run_from sx st evs = Ok (st', tl) -> AInv sx st' /\ TV sx en st'.
+Proof.
+  intros TS. induction evs as [|[[tm who] ev] evs IH]; cbn [run_from]; intros st st' tl F A T H.
+  - injection H as <- <-. auto.
+  - destruct (step sx st who ev) as [[st1 ls]|] eqn:Es; [|discriminate H].
+    destruct (run_from sx st1 evs) as [[st2 ls2]|] eqn:Er; [|discriminate H].
+    injection H as <- <-. inversion F as [|? ? Fe Fr]; subst. cbn [snd] in Fe.
+    unfold step in Es. destruct (core_step sx st who ev) as [[s1 dd]|] eqn:Ec; [|discriminate].
+    destruct (emit_all (prv_last s1) (all_reqs sx st s1 dd)) as [[l' ls']|]; [|discriminate]. inversion Es; subst.
+    destruct (core_step_tv _ _ _ _ _ _ _ TS Fe A T Ec) as [A1 T1].
+    apply (IH (set_last s1 l') st2 ls2 Fr); [apply (ainv_ext sx s1); auto|apply (tv_ext sx en s1); auto|exact Er].
+Qed.
+
+(* ---------------------------------------------------------------- the static facts hold for the dumped specs *)
+
+Lemma nosv_cfg_chans cs : tc_chans (nosv_cfg cs) = map (fun '(f, m, i) => (f, chan_of cs m i)) nosv_ids.
+Proof. reflexivity. Qed.
+Lemma nanos6_cfg_chans cs : tc_chans (nanos6_cfg cs) = map (fun '(f, m, i) => (f, chan_of cs m i)) nanos6_ids.
+Proof. reflexivity. Qed.
+
+Lemma task_models_cases en cs cfg mdl :
+  In (cfg, mdl) (task_models en cs) ->
+  (memz M_NOSV en = true /\ cfg = nosv_cfg cs /\ mdl = M_NOSV) \/ (memz M_NANOS6 en = true /\ cfg = nanos6_cfg cs /\ mdl = M_NANOS6).
+Proof.
+  unfold task_models. intros H. apply in_app_or in H as [H|H].
+  - destruct (memz M_NOSV en); [|contradiction]. destruct H as [E|[]]. injection E as <- <-. auto.
+  - destruct (memz M_NANOS6 en); [|contradiction]. destruct H as [E|[]]. injection E as <- <-. auto.
+Qed.
+
+Definition ids_found (cs : list chanspec) (ids : list (tfield * Z * Z)) : Prop :=
+  forall f m i, In (f, m, i) ids -> (match chan_pos cs m i with Some _ => true | None => false end) = true.
+
+Lemma nosv_ids_found en cs : tasks_found en cs -> memz M_NOSV en = true -> ids_found cs nosv_ids.
+Proof.
+  intros [Fv _] E. specialize (Fv E). unfold foundb, nosv_fields in Fv. cbn [forallb] in Fv.
+  repeat (apply andb_prop in Fv as [?F0 Fv]).
+  intros f m i Hin. unfold nosv_ids in Hin. cbn [In] in Hin.
+  destruct Hin as [H|[H|[H|[H|[H|[]]]]]]; injection H as <- <- <-; assumption.
+Qed.
+
+Lemma nanos6_ids_found en cs : tasks_found en cs -> memz M_NANOS6 en = true -> ids_found cs nanos6_ids.
+Proof.
+  intros [_ Fv] E. specialize (Fv E). unfold foundb, nanos6_fields in Fv. cbn [forallb] in Fv.
+  repeat (apply andb_prop in Fv as [?F0 Fv]).
+  intros f m i Hin. unfold nanos6_ids in Hin. cbn [In] in Hin.
+  destruct Hin as [H|[H|[H|[]]]]; injection H as <- <- <-; assumption.
+Qed.
+
+Lemma ids_chan sx ids f k :
+  ids_found (s_chans sx) ids ->
+  In (f, k) (map (fun '(f, m, i) => (f, chan_of (s_chans sx) m i)) ids) ->
+  exists m i, In (f, m, i) ids /\ (k < length (s_chans sx))%nat /\ cs_model (spec_of sx k) = m /\ cs_index (spec_of sx k) = i.
+Proof.
+  intros Hf Hin. apply in_map_iff in Hin as ([[f' m] i] & E & Hin). injection E as -> <-. exists m, i. split; [exact Hin|].
+  specialize (Hf _ _ _ Hin). unfold chan_of, spec_of. destruct (chan_pos (s_chans sx) m i) as [k|] eqn:Ep; [|discriminate].
+  exact (chan_pos_spec _ _ _ _ Ep).
+Qed.
+
+(* the identity of every task channel of an enabled model *)
+Lemma task_chan_id sx en cfg mdl f k :
+  tasks_found en (s_chans sx) -> In (cfg, mdl) (task_models en (s_chans sx)) -> In (f, k) (tc_chans cfg) ->
+  (k < length (s_chans sx))%nat /\
+  ((mdl = M_NOSV /\ In (f, cs_model (spec_of sx k), cs_index (spec_of sx k)) nosv_ids) \/
+   (mdl = M_NANOS6 /\ In (f, cs_model (spec_of sx k), cs_index (spec_of sx k)) nanos6_ids)).
+Proof.
+  intros TF Hc Hfk. destruct (task_models_cases _ _ _ _ Hc) as [(E & -> & ->)|(E & -> & ->)].
+  - rewrite nosv_cfg_chans in Hfk. destruct (ids_chan sx _ _ _ (nosv_ids_found _ _ TF E) Hfk) as (m & i & Hin & Hk & <- & <-). auto.
+  - rewrite nanos6_cfg_chans in Hfk. destruct (ids_chan sx _ _ _ (nanos6_ids_found _ _ TF E) Hfk) as (m & i & Hin & Hk & <- & <-). auto.
+Qed.
+
+Lemma ids_is_field f m i : In (f, m, i) (nosv_ids ++ nanos6_ids) -> is_field m i = true.
+Proof.
+  intros H. unfold is_field. apply existsb_exists. exists (f, m, i). split; [exact H|]. now rewrite !Z.eqb_refl.
+Qed.
+
+Lemma task_chan_field sx en cfg mdl f k :
+  tasks_found en (s_chans sx) -> In (cfg, mdl) (task_models en (s_chans sx)) -> In (f, k) (tc_chans cfg) ->
+  is_field (cs_model (spec_of sx k)) (cs_index (spec_of sx k)) = true.
+Proof.
+  intros TF Hc Hfk. destruct (task_chan_id _ _ _ _ _ _ TF Hc Hfk) as (_ & [[_ H]|[_ H]]); apply (ids_is_field f); apply in_or_app; auto.
+Qed.
+
+Lemma nosv_ids_model f m i : In (f, m, i) nosv_ids -> m = M_NOSV.
+Proof. unfold nosv_ids. cbn [In]. intros [H|[H|[H|[H|[H|[]]]]]]; now injection H as _ <- _. Qed.
+Lemma nanos6_ids_model f m i : In (f, m, i) nanos6_ids -> m = M_NANOS6.
+Proof. unfold nanos6_ids. cbn [In]. intros [H|[H|[H|[]]]]; now injection H as _ <- _. Qed.
+
+Lemma nosv_ids_inj f f' m i : In (f, m, i) nosv_ids -> In (f', m, i) nosv_ids -> f = f'.
+Proof.
+  unfold nosv_ids. cbn [In].
+  intros [H|[H|[H|[H|[H|[]]]]]] [H'|[H'|[H'|[H'|[H'|[]]]]]]; injection H as <- <- <-; injection H' as <- _ E; try reflexivity;
+    vm_compute in E; discriminate E.
+Qed.
+Lemma nanos6_ids_inj f f' m i : In (f, m, i) nanos6_ids -> In (f', m, i) nanos6_ids -> f = f'.
+Proof.
+  unfold nanos6_ids. cbn [In].
+  intros [H|[H|[H|[]]]] [H'|[H'|[H'|[]]]]; injection H as <- <- <-; injection H' as <- _ E; try reflexivity;
+    vm_compute in E; discriminate E.
+Qed.
+
+Lemma dumped_fields_ok : forallb (fun en => forallb field_spec_okb (mk_chans en)) (sublists all_models) = true.
+Proof. vm_compute. reflexivity. Qed.
+
+Lemma mark_fields_ok ms : forallb field_spec_okb (mark_chans ms) = true.
+Proof. unfold mark_chans. apply forallb_forall. intros sp H. apply in_map_iff in H as [mt [<- _]]. reflexivity. Qed.
+
+Lemma nodup_snd_tc sx ids :
+  ids_found (s_chans sx) ids -> (forall f f' m i, In (f, m, i) ids -> In (f', m, i) ids -> f = f') ->
+  forall l, incl l ids -> NoDup l -> NoDup (map snd (map (fun '(f, m, i) => (f, chan_of (s_chans sx) m i)) l)).
+Proof.
+  intros Hf Hinj. induction l as [|[[f m] i] l IH]; intros Hi N; cbn [map snd]; [constructor|].
+  apply NoDup_cons_iff in N as [Nn Nr]. constructor; [|apply IH; [intros x Hx; apply Hi; now right|exact Nr]].
+  intros Hin. apply in_map_iff in Hin as ([f' k'] & E & Hin). cbn [snd] in E. subst k'.
+  assert (Hl : incl l ids) by (intros x Hx; apply Hi; now right).
+  assert (Hfl : ids_found (s_chans sx) l) by (intros a b c Habc; apply Hf; now apply Hl).
+  destruct (ids_chan sx l f' _ Hfl Hin) as (m' & i' & Hin' & _ & Em & Ei).
+  assert (H0 : In (f, m, i) ids) by (apply Hi; now left).
+  pose proof (Hf _ _ _ H0) as Hfound. destruct (chan_of_found sx m i Hfound) as [Em0 Ei0].
+  assert (m' = m) by congruence. assert (i' = i) by congruence. subst m' i'.
+  assert (f = f') by (apply (Hinj f f' m i); [exact H0|now apply Hl]). subst f'. contradiction.
+Qed.
+
+Theorem specs_task_static sx en ms :
+  In en (sublists all_models) -> s_chans sx = mk_chans en ++ mark_chans ms -> TaskStatic sx en /\ tasks_found en (s_chans sx).
+Proof.
+  intros Hen Hcs. destruct (specs_of_any_trace sx en ms Hen Hcs) as [_ TF]. split; [|exact TF].
+  assert (Hall : forall k, field_spec_okb (spec_of sx k) = true).
+  { intros k. destruct (spec_of_cases sx k) as [Hin|E0]; [|rewrite E0; reflexivity].
+    pose proof dumped_fields_ok as D. rewrite forallb_forall in D. specialize (D en Hen).
+    assert (G : forallb field_spec_okb (s_chans sx) = true) by (rewrite Hcs, forallb_app, D, mark_fields_ok; reflexivity).
+    rewrite forallb_forall in G. now apply G. }
+  split.
+  - intros cfg mdl Hc. destruct (task_models_cases _ _ _ _ Hc) as [(E & -> & ->)|(E & -> & ->)].
+    + rewrite nosv_cfg_chans. apply (nodup_snd_tc sx nosv_ids (nosv_ids_found _ _ TF E) nosv_ids_inj); [apply incl_refl|].
+      unfold nosv_ids. repeat constructor; cbn [In]; intuition discriminate.
+    + rewrite nanos6_cfg_chans. apply (nodup_snd_tc sx nanos6_ids (nanos6_ids_found _ _ TF E) nanos6_ids_inj); [apply incl_refl|].
+      unfold nanos6_ids. repeat constructor; cbn [In]; intuition discriminate.
+  - intros cfg mdl f k Hc Hfk. destruct (task_chan_id _ _ _ _ _ _ TF Hc Hfk) as [Hk _]. split; [exact Hk|].
+    pose proof (task_chan_field _ _ _ _ _ _ TF Hc Hfk) as Hfld. specialize (Hall k). unfold field_spec_okb in Hall.
+    rewrite Hfld in Hall. cbn [negb orb] in Hall. apply andb_prop in Hall as [H1 H2]. apply negb_true_iff in H1.
+    split; [exact H1|]. destruct (cs_init (spec_of sx k)); [discriminate|reflexivity].
+  - intros cfg mdl cfg' mdl' Hc Hc'.
+    destruct (task_models_cases _ _ _ _ Hc) as [(E & -> & ->)|(E & -> & ->)];
+    destruct (task_models_cases _ _ _ _ Hc') as [(E' & -> & ->)|(E' & -> & ->)]; try (left; split; reflexivity); right.
+    + split; [discriminate|]. intros f k f' k' H1 H2 ->.
+      destruct (task_chan_id _ _ _ _ _ _ TF Hc H1) as (_ & [[_ I1]|[D1 _]]); [|discriminate D1].
+      destruct (task_chan_id _ _ _ _ _ _ TF Hc' H2) as (_ & [[D2 _]|[_ I2]]); [discriminate D2|].
+      apply nosv_ids_model in I1. apply nanos6_ids_model in I2. rewrite I1 in I2. discriminate I2.
+    + split; [discriminate|]. intros f k f' k' H1 H2 ->.
+      destruct (task_chan_id _ _ _ _ _ _ TF Hc H1) as (_ & [[D1 _]|[_ I1]]); [discriminate D1|].
+      destruct (task_chan_id _ _ _ _ _ _ TF Hc' H2) as (_ & [[_ I2]|[D2 _]]); [|discriminate D2].
+      apply nanos6_ids_model in I1. apply nosv_ids_model in I2. rewrite I1 in I2. discriminate I2.
+Qed.
